@@ -29,6 +29,11 @@ def main() -> int:
     if args.replay:
         return int(mod.replay(args.replay))
     report = common.Report(prop, args.tier)
+    if args.only:
+        # a debugging subset cannot reach every witness class: the vacuity guard applies to full runs only (and a subset run
+        # does not overwrite the evidence file of the full check)
+        report.require_witnesses = lambda *a, **k: None          # type: ignore[method-assign]
+        report.partial = True
     try:
         mod.run(report, args.tier, only=args.only)
     except common.Inconclusive as e:
